@@ -948,6 +948,17 @@ Proof. reflexivity. Qed.
 Theorem notify_only_after_store last : send_once_tail false false last = (0%N, []).
 Proof. reflexivity. Qed.
 
+Theorem receive_only_all (c : conf) (ok : bool) (last : cmap) :
+  cf_enabled (syncer_cleanup_conf true c) = false /\ send_once_tail true ok last = (0%N, []) /\
+  send_once_tail false false last = (0%N, []).
+Proof. repeat split. Qed.
+
+Theorem in_order_hist_run parse prefix h bucket now del_fail rest :
+  in_order_hist parse prefix (h ++ Run bucket now del_fail :: rest) = true ->
+  in_order_at parse prefix h bucket now = true /\ nodupb bucket = true /\
+  distinct_ts (bucket_cands parse prefix bucket) = true.
+Proof. intros H. exact (in_order_hist_at parse prefix [] _ h bucket now del_fail rest H eq_refl). Qed.
+
 (* ---------- why the in-order hypothesis is needed ---------- *)
 (* One instance [9]; its newest snapshot [2] (ts 200) is listed first; the older [1] (ts 100)
    shows up later (e.g. delayed by multi-site replication).  At now = 105, [1] is 5 ns "young":
